@@ -327,6 +327,20 @@ std::string sqf::parser::preprocessor::impl_default::instance::replace(::sqf::ru
     {
         return m(original_fileinfo, original_fileinfo, params, runtime);
     }
+    // A macro that shows up inside of its own expansion (directly or through other macros) would expand
+    // forever: report it and leave the name as it is.
+    if (std::find(m_macro_stack.begin(), m_macro_stack.end(), std::string(m.name())) != m_macro_stack.end())
+    {
+        m_errflag = true;
+        log(err::RecursiveMacro(original_fileinfo.to_diag_info(), std::string(m.name())));
+        return std::string(m.name());
+    }
+    m_macro_stack.push_back(std::string(m.name()));
+    struct macro_stack_guard
+    {
+        std::vector<std::string>& stack;
+        ~macro_stack_guard() { stack.pop_back(); }
+    } macro_stack_guard_instance{ m_macro_stack };
 
     std::unordered_map<std::string, std::string> parammap;
     for (size_t i = 0; i < params.size(); i++)
